@@ -62,6 +62,7 @@ class Gen:
                     signature="S0" if (f == "C09" and r.random() < 0.3) else "",
                     extra=(["EK", "ev"] if r.random() < 0.5 else ["x y", "z"]) if (f == "C09" and r.random() < 0.45) else [])
             c["_relreads"] = r.random() < 0.4       # the dependency file spells the paths relative to the working directory
+            c["_multirule"] = r.random() < 0.5      # Makefile style: the read paths are spread over several rules / continuation lines
             if f == "C11" and reads and r.random() < 0.3:
                 # an explicit working-directory: relative names in the dependency file are relative to it
                 c["_wd"] = "wdir"; self.fs0.setdefault("wdir", dict(t="dir", c=""))
@@ -154,9 +155,17 @@ class Gen:
         shells = [n for n, c in d["cmds"].items() if c["tool"] == "shell"]
         kinds = ["tag", "extra", "env", "rewire", "remove", "flag", "signature", "depstyle", "boundary", "addinput", "restore", "argenv", "dupout", "argsplit"]
         k = r.choice(kinds)
+        if self.focus == "C09" and r.random() < 0.5:      # prefer edits that change only a signature-relevant detail
+            k = r.choice(["extra", "env", "argenv", "argsplit", "argsplit", "depstyle", "signature", "boundary", "flag"])
         if not shells: k = "restore"
         if k == "restore" and getattr(self, "desc0", None) is not None: return copy.deepcopy(self.desc0), "restore"
         n = r.choice(shells) if shells else None
+        if k == "argsplit":
+            cand = [x for x in shells if d["cmds"][x]["_extra"][-2:] in (["x y", "z"], ["x", "y z"])]
+            if cand: n = r.choice(cand)
+        if k == "argenv":
+            cand = [x for x in shells if len(d["cmds"][x]["_extra"]) >= 2 and not d["cmds"][x]["_env"]]
+            if cand: n = r.choice(cand)
         c = d["cmds"].get(n)
         if k == "tag":
             c["tag"] = c["tag"] + "x"
